@@ -24,6 +24,7 @@ import (
 
 	"verif/internal/c12"
 	"verif/internal/evid"
+	"verif/internal/l2"
 )
 
 const ruleText = "scenario i is a pure function of (seed, i): 0-5 scripted peers (per-request outcomes answer / unrelated-then-answer / " +
@@ -32,9 +33,16 @@ const ruleText = "scenario i is a pure function of (seed, i): 0-5 scripted peers
 	"NumRetries 1-3 / default / NoRetryMax, Timeout, ProgressTimeout, Cancel closed at a trigger, Encoding; kinds mixed, stopmid (Stop with " +
 	"batches in flight), reconnect, nopeer, rank (constructed strict score difference); then a probe batch on a fresh peer and Stop. " +
 	"Fingerprint = (kind, #peers taken by the dispatcher, #batches, option kinds, outcome kinds actually delivered, verdict kinds); " +
-	"non-trivial = at least one non-probe batch produced a verdict"
+	"non-trivial = at least one non-probe batch produced a verdict" + c12.L2Rule
 
 func main() {
+	if l2.IsChild() {
+		// Scenario process of the L2 family: runs one scenario against the
+		// complete client and exits.
+		r := evid.New("C12", "exploration")
+		l2.RunScenarios(r, 0, c12.L2ChildTimeout, c12.L2Scenario)
+		return
+	}
 	child := false
 	for _, a := range os.Args[1:] {
 		if a == "-child" || a == "--child" {
@@ -113,14 +121,25 @@ func runChild() {
 	repeat := flag.Int("repeat", 1, "with -only/-replay: run it this many times")
 	replay := flag.String("replay", "", "re-run the scenario stored in a replay file")
 	conc := flag.Int("conc", 0, "scenarios in flight (default 128 quick / 192 thorough)")
+	noL2 := flag.Bool("nol2", false, "debug: skip the L2 family (complete client against wire peers)")
+	l2Only := flag.Bool("l2only", false, "debug: run only the L2 family")
+	l2K := flag.Int("l2k", -1, "debug: run this L2 scenario in this process and print its result")
 	r := evid.New("C12", "exploration")
 	r.Rule(ruleText)
+	if *l2K >= 0 {
+		c12.L2Debug(r.Seed, *l2K)
+		return
+	}
+	c12.L2Describe(r)
 	r.Assume("harness peers honour the query.Peer contract: QueueMessageWithEncoding never blocks, messages are delivered on the subscription channel, OnDisconnect is closed once; no two peers with one address are connected at the same time (a reconnect under the same address is offered only after the old instance's OnDisconnect was closed)")
 	r.Assume("timers of the Go runtime never fire early (used only to EXCLUDE a timer as the cause of a timeout verdict)")
 	r.Assume("NumRetries(n) means at most max(n,1) attempts per request, as implemented and as the package's own tests expect")
 	r.Assume("violations that rest on absence of progress (request-not-reissued, probe-starved) are raised only after 30 s without any event in the scenario (the longest worker timeout a scenario can legitimately reach is 8 s: at most three scripted silences, 2 s doubling) and only if the scenario's own dispatcher goroutine (pprof label) is parked at one statement in two samples 2 s apart; Stop-blocked likewise")
 
 	n := r.Pick(300, 40000)
+	if *l2Only {
+		n = 0
+	}
 	scs := c12.Generate(r.Seed, n)
 	width := r.Pick(128, 192)
 	if *conc > 0 {
@@ -156,6 +175,35 @@ func runChild() {
 		for i := 0; i < max(*repeat, 1); i++ {
 			scs = append(scs, one)
 		}
+	}
+
+	// The L2 family runs in scenario processes of its own, next to the
+	// in-process scenarios below.
+	var (
+		l2Done  = make(chan struct{})
+		l2mu    sync.Mutex
+		l2Cases int
+		l2Good  int
+	)
+	if *replay == "" && *only < 0 && !*noL2 {
+		if os.Getenv("VERIF_SCRATCH") == "" {
+			d, _ := os.MkdirTemp("", "verif-c12-")
+			os.Setenv("VERIF_SCRATCH", d)
+			defer os.RemoveAll(d)
+		}
+		go func() {
+			defer close(l2Done)
+			l2.RunScenariosCB(r, c12.L2Count(r), c12.L2ChildTimeout, c12.L2Scenario, func(res *l2.Result) {
+				l2mu.Lock()
+				l2Cases++
+				if res.Nontrivial {
+					l2Good++
+				}
+				l2mu.Unlock()
+			})
+		}()
+	} else {
+		close(l2Done)
 	}
 
 	var (
@@ -200,6 +248,9 @@ func runChild() {
 		}()
 	}
 	wg.Wait()
+	<-l2Done
+	r.Count("l2_scenarios", int64(l2Cases))
+	r.Count("l2_scenarios_nontrivial", int64(l2Good))
 
 	for k, v := range totals {
 		r.Count(k, v)
@@ -220,5 +271,9 @@ func runChild() {
 	if *replay != "" || *only >= 0 {
 		floor = 1
 	}
+	if *l2Only {
+		floor = r.Pick(4, 40)
+	}
+	fmt.Printf("C12 L2 family: scenarios=%d non-trivial=%d\n", l2Cases, l2Good)
 	r.Finish(floor)
 }
